@@ -184,6 +184,14 @@ func c02(tier string) []*explore.Scenario {
 			out = append(out, long)
 		}
 	}
+	// medium scale with one deviation (buffers of 16 overflow, spawned helpers may be delayed)
+	for _, c := range []streamCase{{"CStream", "sendall", "collect", 24, 0, 0}, {"SStream", "sendall", "burst", 1, 24, 0}, {"Bidi", "concurrent", "echo", 20, 0, 0}} {
+		for _, cp := range []int{0, 64} {
+			sc := c02One([]streamCase{c}, cp, 1)
+			sc.SelectCost = true
+			out = append(out, sc)
+		}
+	}
 	// the same through a demultiplexer, with handlers that keep up and handlers that start late
 	for _, c := range []streamCase{{"CStream", "sendall", "collect", 200, 0, 0}, {"Bidi", "concurrent", "echo", 200, 0, 0}, {"Bidi", "concurrent", "collect", 40, 0, 0},
 		{"SStream", "sendall", "burst", 1, 200, 0}, {"Bidi", "pingpong", "echo", 20, 0, 0}} {
@@ -191,6 +199,7 @@ func c02(tier string) []*explore.Scenario {
 			out = append(out, c02ViaDemux(c, cp, false, 0), c02ViaDemux(c, cp, true, 0))
 		}
 	}
+	out = append(out, c02ViaDemux(streamCase{"CStream", "sendall", "collect", 24, 0, 0}, 64, false, 1), c02ViaDemux(streamCase{"CStream", "sendall", "collect", 24, 0, 0}, 64, true, 1))
 	out = append(out, c02ViaDemux(streamCase{"CStream", "sendall", "collect", 3, 0, 0}, 64, true, 1), c02ViaDemux(streamCase{"Bidi", "concurrent", "echo", 2, 0, 0}, 0, true, 1))
 	for _, mixed := range []bool{false, true} {
 		var many []streamCase
